@@ -591,6 +591,35 @@ def check(ctx):
         and any(isinstance(x, ast.Expr) and isinstance(x.value, ast.Call) and norm(x.value.func) == "dependencies.update" for x in ast.walk(expand[0]))
     ctx.check(ok, "C10.R11", f"{fd.qualname}:expand", None, "a callable member is no longer replaced (removed, then updated) by its own dependencies", fd, expand[0] if expand else fd.node, detail="dependencies.remove(attr); dependencies.update(rec_deps)")
 
+    # ---------------- R13: validators without known dependencies on object types
+    ctx.rule("C10.R13", "object types: validators that are not registered on a class (per-call `validators=`, `validators(...)` metadata) have no dependency set; they are not handed to the dependency scheduler of ObjectMethod (which would drop them as 'all dependencies defaulted') but executed on the constructed object", floor=3)
+    ob = model.func("apischema.deserialization.DeserializationMethodVisitor.object")
+    rets13 = [r for r in walk_no_nested(ob.node) if isinstance(r, ast.Return) and isinstance(r.value, ast.Call) and norm(r.value.func) == "self._factory" and r.value.args]
+    ctx.require(len(rets13) == 1, "object(): `return self._factory(<factory>, dict, validation=False)` not found")
+    fname = norm(rets13[0].value.args[0])
+    outer = ob.nested.get(fname)
+    ctx.require(outer is not None, f"object(): closure {fname} not found")
+    builds_object = any(isinstance(c, ast.Call) and (dotted(c.func) or "").endswith("ObjectMethod") for c in walk_no_nested(outer.node))
+    vparam = outer.params[1] if len(outer.params) > 1 else "validators"
+    part_free = [n for n in ast.walk(outer.node) if isinstance(n, (ast.ListComp, ast.GeneratorExp)) and norm(n.generators[0].iter) == vparam and any(norm(i) in ("v.owner is None", "validator.owner is None") for i in n.generators[0].ifs)]
+    part_reg = [n for n in ast.walk(outer.node) if isinstance(n, (ast.ListComp, ast.GeneratorExp)) and norm(n.generators[0].iter) == vparam and any(norm(i) in ("v.owner is not None", "validator.owner is not None") for i in n.generators[0].ifs)]
+    ctx.check(not builds_object and bool(part_free) and bool(part_reg), "C10.R13", f"{ob.qualname}:partition", None,
+              "every validator reaching an object type is handed to ObjectMethod, which keeps a validator only when its dependency set meets the provided fields: a validator passed with deserialize(Cls, data, validators=[check]) or validators(check) metadata has an empty set and silently never runs (it does run for int, str, list...)",
+              ob, rets13[0], detail="validators split on `owner is None`")
+    if part_free and part_reg:
+        inner_calls = [c for c in walk_no_nested(outer.node) if isinstance(c, ast.Call) and isinstance(c.func, ast.Name) and c.func.id in ob.nested and c.func.id != fname]
+        ok = len(inner_calls) == 1 and len(inner_calls[0].args) >= 2 and any(x is part_reg[0] for x in ast.walk(inner_calls[0].args[1]))
+        ctx.check(ok, "C10.R13", f"{ob.qualname}:registered-to-scheduler", None, "the object node does not receive exactly the validators registered on a class", ob, inner_calls[0] if inner_calls else outer.node, detail="factory(constraints, [v ... if v.owner is not None])")
+        wraps13 = [c for c in walk_no_nested(outer.node) if isinstance(c, ast.Call) and (dotted(c.func) or "").endswith("ValidatorMethod")]
+        ok = len(wraps13) == 1 and len(wraps13[0].args) == 3 and norm(wraps13[0].args[2]) == "self.aliaser"
+        if ok:
+            fv = wraps13[0].args[1]
+            ok = any(x is part_free[0] for x in ast.walk(fv)) or (isinstance(fv, ast.Name) and any(isinstance(a, ast.Assign) and norm(a.targets[0]) == fv.id and any(x is part_free[0] for x in ast.walk(a.value)) for a in walk_no_nested(outer.node)))
+        ctx.check(ok, "C10.R13", f"{ob.qualname}:free-run", None, "the validators without owner are not executed on the constructed object (ValidatorMethod(method, <free>, self.aliaser))", ob, wraps13[0] if wraps13 else outer.node, detail="ValidatorMethod(method, free_validators, self.aliaser)")
+    vinit = model.func(f"{VALIDATORS_MOD}.Validator.__init__")
+    ctx.check(any(isinstance(a, (ast.Assign, ast.AnnAssign)) and norm(a.targets[0] if isinstance(a, ast.Assign) else a.target) == "self.owner" and norm(a.value) == "None" for a in walk_no_nested(vinit.node)), "C10.R13", f"{vinit.qualname}:owner", None,
+              "a Validator no longer starts without owner: registered and free validators cannot be told apart", vinit, vinit.node, detail="self.owner = None")
+
     # ---------------- R12: paths yielded by validators
     ctx.rule("C10.R12", "build_validation_error: a yielded path that is a single key (an index, a string) is wrapped before its emptiness is tested - a falsy key (index 0, '') is a location, not the absence of a path", floor=2)
     bve = model.func("apischema.validation.errors.build_validation_error")
@@ -625,6 +654,8 @@ def fixtures(ctx):
 
 
 def mutants(mb):
+    mb.add_text("free-validators-to-scheduler", "apischema/deserialization/__init__.py", "        return self._factory(factory_with_free_validators, dict, validation=False)", "        return self._factory(factory, dict, validation=False)", "C10.R13", "partition")
+    mb.add_text("free-validators-dropped", "apischema/deserialization/__init__.py", "            if free_validators:\n                method = ValidatorMethod(method, free_validators, self.aliaser)\n            return method\n", "            return method\n", "C10.R13", "free-run")
     mb.add_text("path-truthiness-on-raw-key", "apischema/validation/errors.py", "        if path is None:\n            path = ()\n        elif isinstance(path, str) or not isinstance(path, Collection):\n            path = (path,)  # a single key, possibly falsy (index 0, empty string)\n        if not path:\n            messages.append(msg)\n        else:\n",
                 "        if not path:\n            messages.append(msg)\n        else:\n            if isinstance(path, str) or not isinstance(path, Collection):\n                path = (path,)\n", "C10.R12", "emptiness")
     D = "apischema/validation/dependencies.py"
